@@ -6,6 +6,8 @@ import AspireModel.Model.Schedule
 import AspireModel.Model.Smc
 import AspireModel.Model.Eval
 import AspireModel.Model.CkptFile
+import AspireModel.Model.Ctx
+import AspireModel.Model.Wiring
 /-
   Pure part of the line-protocol driver: one request line in, one reply line out.
   `Main.lean` only does the IO loop.  First token selects the width (`f64` / `f32`),
@@ -338,6 +340,52 @@ def opDump : P String := do
   | none => pure "none"
   | some d => pure (outNs (d.map (·.toNat)))
 
+
+/-! ### contexts (C19): `ctx <has_defaults path every sc sf> <prog in prefix notation>` -/
+partial def parseProg : P Prog := do
+  match (← tok) with
+  | "act" => pure .act
+  | "touch" => pure .touch
+  | "raise" => pure .raise
+  | "obs" => pure .obs
+  | "seq" => do let a ← parseProg; let b ← parseProg; pure (.seq a b)
+  | "pool" => do
+    let id ← nat; let c ← bool; let par ← bool; let b ← parseProg; pure (.pool id c par b)
+  | "auto" => do
+    let path ← nat; let ev ← nat; let sc ← bool; let sf ← bool; let b ← parseProg; pure (.auto path ev sc sf b)
+  | t => throw s!"bad prog token {t}"
+
+def outDefaults (d : Option Defaults) : String :=
+  match d with
+  | none => "none"
+  | some d => s!"some {d.path} {d.every} {outB d.saveConfig} {outB d.saveFlow} {outB d.savedConfig} {outB d.savedFlow}"
+
+def outInst (s : Inst) : String := s!"{s.ll} {s.lp} {outDefaults s.defaults}"
+
+def outEv : PoolEv → String
+  | .close i => s!"close {i}"
+  | .join i => s!"join {i}"
+  | .seen s => s!"seen {outInst s}"
+
+def opCtx : P String := do
+  let has ← bool
+  let d0 ← if has then do
+      let path ← nat; let ev ← nat; let sc ← bool; let sf ← bool
+      pure (some ({ path := path, every := ev, saveConfig := sc, saveFlow := sf } : Defaults))
+    else pure none
+  let p ← parseProg
+  let (r, s, log) := exec p { ll := 0, lp := 1, defaults := d0, fresh := 2 }
+  pure (" ".intercalate ([outB r, outInst s, toString log.length] ++ log.map outEv))
+
+
+/-! ### random-source wiring (C20): `wiring initHasRng sampleHasRng sampleOverwrites consumesRng` -/
+def opWiring : P String := do
+  let a ← bool; let b ← bool; let c ← bool; let d ← bool
+  let t : SamplerTbl := { initHasRng := a, sampleHasRng := b, sampleOverwrites := c, consumesRng := d }
+  let f (r : Route) : String :=
+    (if accepted t r then "1" else "0") ++ " " ++ (match usedSrc t r with | .user => "user" | .ambient => "ambient")
+  pure (" ".intercalate [outB (WiringOK t), f .ctor, f .call, f .top])
+
 def dispatch (op : String) : P String :=
   match op with
   | "weights" => opWeights (α := α)
@@ -360,6 +408,8 @@ def dispatch (op : String) : P String :=
   | "initial" => opInitial (α := α)
   | "calls" => opCalls
   | "dump" => opDump
+  | "ctx" => opCtx
+  | "wiring" => opWiring
   | _ => throw s!"unknown op {op}"
 
 end Driver
